@@ -229,6 +229,10 @@ def subchecks(tier, seed):
         ("ngram_rows", "I", mk(_ngram_cases, tier), "pairs over Sigma_2<=4 x ngram_size{1,2,3} x lattice (radius 1,2; flat,harmonic)"),
         ("token_compiled", "N", mk(_token_cases, tier, "token", LATTICE[::4] + VARIANTS[:1] + VARIANTS[4:5], "ab", 3, 2),
          "conformance: pairs over Sigma_2<=3 x every 4th lattice point, compiled mode, same oracle"),
+        ("timed_compiled", "N", (lambda: (c for i, c in enumerate(_timed_cases("quick")) if i % 23 == 0)),
+         "conformance: every 23rd timed case (incl. empty sequences and large time origins), compiled mode"),
+        ("multiset_compiled", "N", (lambda: (c for i, c in enumerate(_multiset_cases("quick")) if i % 11 == 0)),
+         "conformance: every 11th multiset case, compiled mode"),
     ]
     for name, mode, gen, desc in spaces:
         subs.append(Sub(name, mode, gen, run_case, describe=desc, total=_count(gen()),
